@@ -10,6 +10,11 @@ Case kinds (all JSON, all randomness from the run's PRNG):
   labels      ids assumed by a packaged model's metrics vs ids its tokeniser produces: the driver
               evaluates `labelsAgree` on introspected constants; the oracle evaluates the model's real
               eval metrics on real tokeniser output against by-name reference metrics
+  so_tok      several StackOverflow preprocessors created from ONE tokenizer with different max_length
+              values in various create/use interleavings (directly, through the raw tf.function, and
+              lazily through an SQLite-backed FederatedData): every output has its OWN max_length and
+              is the BOS/words/EOS/PAD layout of an independent reference tokenisation (= Lean model),
+              and the packaged model's token-count / truncation / OOV metrics agree
   rowindep    metamorphic row-independence of the packaged haiku/stax models (monitor only)
 """
 import inspect
@@ -117,13 +122,19 @@ class C20(core.Property):
   def gen_cases(self, rng, tier):
     quick = tier == 'quick'
     yield {'kind': 'shk_table', 'seed': rng.randrange(10**6)}
+    # every byte value, inside one snippet and as 256 one-byte snippets (all out-of-vocabulary and
+    # control bytes, including the values of the reserved labels themselves)
+    yield {'kind': 'shk', 'L': rng.choice([2, 7, 50]), 'snips': [bytes(range(256)).hex()]}
+    yield {'kind': 'shk', 'L': rng.choice([2, 3, 5]), 'snips': [bytes([b]).hex() for b in range(256)]}
     for lo in range(0, 10000, 1000):
       yield {'kind': 'emnist_sweep', 'lo': lo, 'hi': lo + 1000, 'salt': rng.randrange(10**6)}
     for _ in range(40 if quick else 200):
       yield self._gen_emnist_id(rng)
     # label agreement first among the expensive ones: it is a configuration property
-    for i in range(40 if quick else 160):
+    for i in range(24 if quick else 160):
       yield self._gen_labels(rng, 'shakespeare' if i % 2 == 0 else 'stackoverflow')
+    for i in range(12 if quick else 60):
+      yield self._gen_so_tok(rng)
     for i in range(70 if quick else 150):
       yield self._gen_cifar(rng)
     if not quick:
@@ -146,9 +157,9 @@ class C20(core.Property):
         for ls in lens:
           yield {'kind': 'shk', 'L': L,
                  'snips': [bytes(rng.choice(b'ab Z\x00\xff9\r') for _ in range(n)).hex() for n in ls]}
-    for _ in range(350 if quick else 4000):
+    for _ in range(300 if quick else 4000):
       yield self._gen_shk(rng)
-    for i in range(24 if quick else 96):
+    for i in range(16 if quick else 96):
       yield {'kind': 'rowindep', 'model': ROW_MODELS[i % len(ROW_MODELS)], 'seed': rng.randrange(10**6),
              'B': 4 if quick else rng.choice([2, 4, 5]), 'row': rng.randrange(0, 4), 'L': 3 if quick else rng.choice([2, 3, 5])}
 
@@ -162,7 +173,7 @@ class C20(core.Property):
     snips = []
     for _ in range(nsn):
       n = rng.choice([0, 0, 1, 2, 3, rng.randrange(0, 20)])
-      alphabet = rng.choice([b'abc', bytes(range(256)), b'\x00\xff\x80', b'The quick brown\r\n9'])
+      alphabet = rng.choice([b'abc', bytes(range(256)), b'\x00\xff\x80', b'The quick brown\r\n9', b'\x00\x01\x02\x03a'])
       snips.append(bytes(rng.choice(alphabet) for _ in range(n)))
     if snips and L >= 2 and rng.random() < 0.5:
       # force the joined length next to a multiple of L: J - 1 in {kL - 1, kL, kL + 1}
@@ -223,9 +234,66 @@ class C20(core.Property):
     return {'kind': 'labels', 'task': task, 'nv': nv, 'L': rng.choice([3, 6]), 'sents': sents,
             'pred': rng.choice(['synthetic', 'synthetic', 'model']), 'seed': rng.randrange(10**6)}
 
+  def _gen_so_tok(self, rng):
+    nv = rng.choice([2, 9])
+    sents = []
+    for _ in range(rng.randrange(1, 5)):
+      n = rng.choice([0, 1, 1, 2, 3, 5, 8, 11])
+      words = [rng.choice(['w%d' % rng.randrange(nv), 'w%d' % rng.randrange(nv), 'zzz', '']) if rng.random() < 0.9
+               else 'W0' for _ in range(n)]
+      sents.append(' '.join(words))
+    k = rng.choice([1, 2, 2, 3, 3])
+    lengths = [rng.choice([1, 2, 3, 4, 6, 9]) for _ in range(k)]
+    if k > 1 and rng.random() < 0.8:
+      lengths = rng.sample([1, 2, 3, 4, 6, 9], k)
+    pat = rng.randrange(4)
+    idx = list(range(k))
+    if pat == 0:      # create, use, create, use, ... then the first one again
+      ops = [o for i in idx for o in (['c', i], ['u', i])] + [['u', 0]]
+    elif pat == 1:    # all created first (the load_data pattern), used in creation order
+      ops = [['c', i] for i in idx] + [['u', i] for i in idx]
+    elif pat == 2:    # all created first, used in another order, twice
+      order = idx[:]
+      rng.shuffle(order)
+      ops = [['c', i] for i in idx] + [['u', i] for i in reversed(idx)] + [['u', i] for i in order]
+    else:             # random valid interleaving
+      ops, created, pending = [], [], idx[:]
+      while pending or rng.random() < 0.5:
+        if pending and (not created or rng.random() < 0.5):
+          i = pending.pop(0)
+          created.append(i)
+          ops.append(['c', i])
+        elif created:
+          ops.append(['u', rng.choice(created)])
+        if len(ops) > 10:
+          break
+      ops += [['c', i] for i in pending] + [['u', i] for i in idx]
+    return {'kind': 'so_tok', 'nv': nv, 'sents': sents, 'lengths': lengths, 'ops': ops,
+            'via': rng.choice(['direct', 'direct', 'sqlite', 'sqlite', 'token_fn'])}
+
   # ------------------------------------------------------------------------------------------
   def shrink(self, case):
     k = case.get('kind')
+    if k == 'so_tok':
+      ops, lens, st = case['ops'], case['lengths'], case['sents']
+      if case['via'] != 'direct':
+        yield {**case, 'via': 'direct'}
+      for i in range(len(lens)):      # drop preprocessor i entirely
+        if len(lens) > 1:
+          ren = {j: (j if j < i else j - 1) for j in range(len(lens)) if j != i}
+          yield {**case, 'lengths': lens[:i] + lens[i + 1:],
+                 'ops': [[o, ren[j]] for o, j in ops if j != i]}
+      for n in range(len(ops)):       # drop one use
+        if ops[n][0] == 'u' and sum(1 for o in ops if o[0] == 'u') > 1:
+          yield {**case, 'ops': ops[:n] + ops[n + 1:]}
+      for i in range(len(st)):
+        if len(st) > 1:
+          yield {**case, 'sents': st[:i] + st[i + 1:]}
+      for i, t in enumerate(st):
+        ws = t.split(' ')
+        if len(ws) > 1:
+          yield {**case, 'sents': st[:i] + [' '.join(ws[:-1])] + st[i + 1:]}
+      return
     if k == 'shk' or (k == 'labels' and 'snips' in case):
       sn = case['snips']
       for i in range(len(sn)):
@@ -234,6 +302,7 @@ class C20(core.Property):
         if len(s) >= 2:
           yield {**case, 'snips': sn[:i] + [s[:len(s) // 4 * 2]] + sn[i + 1:]}
           yield {**case, 'snips': sn[:i] + [s[:-2]] + sn[i + 1:]}
+          yield {**case, 'snips': sn[:i] + [s[2:]] + sn[i + 1:]}
       if case['L'] > 2:
         yield {**case, 'L': 2}
         yield {**case, 'L': case['L'] - 1}
@@ -833,6 +902,132 @@ class C20(core.Property):
                    nontrivial=nontrivial, tags=('labels', task, 'pred=' + case['pred']),
                    key=f'C20/labels/{task}', detail=detail or None)
 
+  # ---- StackOverflow tokeniser: one tokenizer, several preprocessors ---------------------------
+  def _eval_so_tok(self, case, ctx):
+    import shutil
+    import tempfile
+    so, tf, jnp, metrics = self.so, self.tf, self.jnp, self.metrics
+    nv, lengths, ops, via = case['nv'], case['lengths'], case['ops'], case['via']
+    sents = [t.encode() for t in case['sents']]
+    N = len(sents)
+    vocab = ['w%d' % i for i in range(nv)]
+    PAD, BOS, EOS, OOV, V = 0, 1, 2, nv + 3, nv + 4
+    problems, corr = [], []
+    toks = np.empty([N], dtype=object)
+    for i, t in enumerate(sents):
+      toks[i] = t
+    dom = np.arange(N, dtype=np.int32) % 2
+
+    # independent reference tokenisation (documented layout); look-up results go to the Lean model
+    looked = [[(vocab.index(w) if w in vocab else None) for w in t.decode().split(' ')] for t in sents]
+
+    def reference(L):
+      xs, ys = [], []
+      for ws in looked:
+        ids = [BOS] + [(OOV if i is None else i + 3) for i in ws] + [EOS]
+        x, y = ids[:-1][:L], ids[1:][:L]
+        xs.append(x + [PAD] * (L - len(x)))
+        ys.append(y + [PAD] * (L - len(y)))
+      return np.array(xs, np.int32).reshape(N, L), np.array(ys, np.int32).reshape(N, L)
+
+    tok = so.StackoverflowTokenizer(vocab=vocab)   # ONE tokenizer for all preprocessors of the case
+    if (tok.PAD, tok.BOS, tok.EOS) != (PAD, BOS, EOS):
+      problems.append('tokenizer PAD/BOS/EOS are not 0/1/2')
+    tmp, fd = None, None
+    made = {}
+    model, _ = self._model('stackoverflow_lstm', vocab_size=nv)
+    lines, pending = [], []
+    try:
+      if via == 'sqlite':
+        from fedjax.core import sqlite_federated_data as sfd
+        tmp = tempfile.mkdtemp(prefix='c20so')
+        path = tmp + '/so.sqlite'
+        with sfd.SQLiteFederatedDataBuilder(path) as b:
+          b.add_many([(b'c0', {'tokens': toks, 'type': np.array([b'answer' if d else b'question' for d in dom],
+                                                                dtype=object)})])
+        fd = sfd.SQLiteFederatedData.new(path).preprocess_client(so.preprocess_client)
+      for step, (o, i) in enumerate(ops):
+        L = lengths[i]
+        if o == 'c':
+          if via == 'direct':
+            made[i] = tok.as_preprocess_batch(L)
+          elif via == 'token_fn':
+            made[i] = tok.create_token_to_ids_fn(L)
+          else:
+            made[i] = fd.preprocess_batch(tok.as_preprocess_batch(L))
+          continue
+        where = f'preprocessor #{i} (max_length={L}) of one tokenizer, step {step} of {ops}, via {via}'
+        try:
+          if via == 'direct':
+            out = made[i]({'tokens': toks, 'domain_id': dom})
+            gx, gy, gd = np.asarray(out['x']), np.asarray(out['y']), out.get('domain_id')
+          elif via == 'token_fn':
+            tx, ty = made[i](tf.constant([t for t in sents], dtype=tf.string))
+            gx, gy, gd = tx.numpy(), ty.numpy(), dom
+          else:
+            out = made[i].get_client(b'c0').all_examples()
+            gx, gy, gd = np.asarray(out['x']), np.asarray(out['y']), out.get('domain_id')
+        except Exception as e:  # pylint: disable=broad-except
+          problems.append(f'{where}: raises {exc_enum(e)}: {str(e)[:120]}')
+          continue
+        rx, ry = reference(L)
+        if gx.shape != (N, L) or gy.shape != (N, L):
+          problems.append(f'{where}: x has shape {gx.shape}, y {gy.shape}; its own max_length demands {(N, L)}')
+        elif gx.dtype != np.int32 or gy.dtype != np.int32:
+          problems.append(f'{where}: dtypes {gx.dtype}/{gy.dtype}')
+        elif not (np.array_equal(gx, rx) and np.array_equal(gy, ry)):
+          problems.append(f'{where}: sentences {sents!r} give x={gx.tolist()} y={gy.tolist()}; the BOS/words/EOS/PAD '
+                          f'layout is x={rx.tolist()} y={ry.tolist()}')
+        else:
+          # consequences of the layout, stated separately: shift and range
+          for r in range(N):
+            n = min(len(looked[r]), L - 1)
+            if gy[r, :n].tolist() != gx[r, 1:n + 1].tolist():
+              problems.append(f'{where}: y is not x shifted by one in row {r}')
+          if gx.size and (min(gx.min(), gy.min()) < 0 or max(gx.max(), gy.max()) >= V):
+            problems.append(f'{where}: label outside [0, {V})')
+        if gd is None or np.asarray(gd).tolist() != dom.tolist():
+          problems.append(f'{where}: domain_id not passed through')
+        # the packaged model's metrics on this output vs the same quantities of the reference labels
+        if gy.ndim == 2 and gy.shape[0] == N and N > 0 and gy.shape[1] > 0:
+          nonpad = ry != PAD
+          nonempty = nonpad.any(-1)
+          want = {'num_tokens': float(nonpad.sum()),
+                  'truncation_rate': safe_div((nonempty & ~(ry == EOS).any(-1)).sum(), nonempty.sum()),
+                  'token_oov_rate': safe_div(((ry == OOV) & nonpad).sum(), nonpad.sum())}
+          MP = 4
+          pad_rows = lambda a: np.concatenate([a, np.zeros((MP - N,) + a.shape[1:], a.dtype)], axis=0)
+          jb = {'x': jnp.asarray(pad_rows(gx)), 'y': jnp.asarray(pad_rows(gy))}
+          jl = jnp.zeros((MP, gy.shape[1], V), jnp.float32)
+          for name in sorted(want):
+            if name not in model.eval_metrics:
+              continue
+            try:
+              got = float(metrics.evaluate_batch(model.eval_metrics[name], jb, jl, jnp.arange(MP) < N).result())
+            except Exception as e:  # pylint: disable=broad-except
+              problems.append(f'{where}: model metric {name} raises {exc_enum(e)}')
+              continue
+            if abs(got - want[name]) > 1e-5 * (1 + abs(want[name])):
+              problems.append(f'{where}: the packaged model sees {name} = {got:.6g}; the reference labels for '
+                              f'max_length={L} give {want[name]:.6g}')
+            ctx.count('so_metric_evaluations')
+        lines.append(line('c20.so', nv, L, looked))
+        pending.append((where, gx, gy))
+        ctx.count('so_preprocessor_uses')
+    finally:
+      if tmp:
+        shutil.rmtree(tmp, ignore_errors=True)
+    for (where, gx, gy), a in zip(pending, ctx.drv.ask(lines)):
+      if not isinstance(a, list) or a != [gx.tolist(), gy.tolist()]:
+        corr.append(f'{where}: tokeniser model {str(a)[:160]} vs impl {str([gx.tolist(), gy.tolist()])[:160]}')
+    order = ''.join(o for o, _ in ops)
+    pattern = 'create-use' if 'cc' not in order else 'created-before-first-use'
+    trunc = any(len(ws) + 1 > L for ws in looked for L in lengths)
+    return Outcome(oracle_fail='; '.join(problems[:3]) or None, corr_fail='; '.join(corr[:2]) or None,
+                   nontrivial=len(set(lengths)) > 1 and N > 0,
+                   tags=('so_tok', 'via=' + via, pattern, 'truncating' if trunc else 'no-truncation'),
+                   key='C20/stackoverflow/tokeniser')
+
   # ---- row independence (monitor) ------------------------------------------------------------
   def _row_batch(self, name, rs, B, L):
     if name.startswith('emnist'):
@@ -928,6 +1123,9 @@ class C20(core.Property):
     return {'exhaustive': {'emnist': 'every n in 0..9999 x both id formats (random hash/suffix)',
                            'cifar (thorough)': 'every crop size pair 1..32 x 1..32',
                            'shakespeare (thorough)': '<=3 snippets of length <=3, L in 2..5'},
+            'stackoverflow tokeniser': 'one tokenizer, 1..3 preprocessors with different max_length, create/use '
+                                       'interleavings (create-use, all-created-first, reordered, random), direct / '
+                                       'raw tf.function / lazy SQLite-backed FederatedData',
             'partial': 'row independence monitored by metamorphic tests only; label agreement = decidable '
                        'configuration predicate + behavioural oracle'}
 
